@@ -559,6 +559,16 @@ class CallMixin:
                     lambda s2: self.branch(s2, smt.is_str(v.t), lambda s3: k(s3, sv_int(z3.Length(Val.s(v.t)))), lambda s4: self.raise_builtin(s4, "TypeError", node)),
                 )
             raise Unsupported("len of " + str(v.ty))
+        if name == "isinstance" and pos[1].meta and pos[1].meta[0] == "typeof":
+            # isinstance(x, type(y)): the class of x is a (non-strict) subclass of the class of y
+            x, y = pos[0].t, pos[1].meta[1].t
+            f = self.get_uf("subclass_of", [IntS, IntS], z3.BoolSort())
+            c = z3.Int("c!sub")
+            ax = z3.ForAll([c], f(c, c))
+            if not any(a.eq(ax) for a in self.global_axioms):
+                self.global_axioms.append(ax)
+            self.note("isinstance(x, type(y)) modelled with an uninterpreted reflexive subclass relation on class ids (proper subclasses exist in the loaded class hierarchy)")
+            return k(st, sv_bool(z3.And(smt.is_ref(x), smt.is_ref(y), f(smt.CLS[Val.r(x)], smt.CLS[Val.r(y)]))))
         if name == "isinstance":
             classes = self.classes_of(pos[1])
             return k(st, sv_bool(self.isinstance_term(st, pos[0], classes)))
